@@ -17,6 +17,7 @@ CBMC_CHECKS = ['--pointer-check', '--bounds-check', '--pointer-overflow-check', 
                '--signed-overflow-check', '--conversion-check', '--div-by-zero-check', '--pointer-primitive-check', '--object-bits', '10']
 TIMEOUT = int(os.environ.get('VERIF_TIMEOUT', '300'))
 MEM_KB = 12 * 1024 * 1024
+CASEPOOL = concurrent.futures.ThreadPoolExecutor(max_workers=8)
 SOLVERS = concurrent.futures.ThreadPoolExecutor(max_workers=int(os.environ.get('VERIF_JOBS', '14')))
 TAG_RE = re.compile(r'\[((?:C\d\d|pre|frame)(?:\s*,\s*(?:C\d\d|pre|frame))*)\]')
 
@@ -86,9 +87,11 @@ def classify(prop_name, desc, line, built, target):
     return ['C02']
 
 
-def prove(built, fn, verbose=False, trace=False, keep=False):
+def prove(built, fn, verbose=False, trace=False, keep=False, case=None):
     """run one proof; returns a result dict"""
     cfg = built.cfg
+    if case is None and built.model.specs.get(fn) is not None and built.model.specs[fn].cases:
+        return prove_cases(built, fn, verbose, trace, keep)
     sp = built.model.specs.get(fn)
     res = {'fn': fn, 'cfg': cfg['name'], 'status': None, 'obligations': 0, 'discharged': 0, 'failed': [],
            'canaries': {}, 'time_s': 0.0, 'backend': 'cbmc 6.11.0 / MiniSat 2.2.1', 'reason': None, 'tags': {}}
@@ -131,10 +134,12 @@ def prove(built, fn, verbose=False, trace=False, keep=False):
                 return res
             loops_needed += nl
     res['loops'] = loops_needed
-    wd = os.path.join(built.wd, 'p_' + fn)
+    wd = os.path.join(built.wd, 'p_' + fn + ('@' + case if case else ''))
     os.makedirs(wd, exist_ok=True)
     t0 = time.time()
     defs = cfg_defines(cfg) + ['-DTARGET_%s' % fn]
+    if case:
+        defs.append('-DCASE_%s' % case)
     for d in getattr(sp, 'defines', []):
         defs.append('-D' + d)
     gb = os.path.join(wd, 'a.gb'); gb2 = os.path.join(wd, 'b.gb')
@@ -176,17 +181,24 @@ def prove(built, fn, verbose=False, trace=False, keep=False):
     groups = [[h] for h in heavy]
     if rest:
         groups.append(rest)
+    tmo = max(TIMEOUT, sp.timeout or 0)
     def solve(group):
         args = []
         for g in group:
             args += ['--property', g]
-        return run(['cbmc', gb2, '--json-ui'] + flags + args, TIMEOUT)
+        r = run(['cbmc', gb2, '--json-ui'] + flags + args, tmo)
+        if r[0] == -9:
+            r2 = run(['cbmc', gb2, '--json-ui', '--sat-solver', 'cadical'] + flags + args, tmo)
+            if r2[0] != -9:
+                res.setdefault('cadical_groups', 0); res['cadical_groups'] += 1
+                return (r2[0], r2[1], r2[2], r[3] + r2[3])
+        return r
     outs = list(SOLVERS.map(solve, groups))
     res['solver_s'] = round(sum(o[3] for o in outs), 2)
     results = []; msgs = []
     for (rc, so, se, dt), group in zip(outs, groups):
         if rc == -9:
-            res['status'] = 'undecided'; res['reason'] = 'timeout after %ds on %s' % (TIMEOUT, group[0] if len(group) == 1 else 'the automatic checks')
+            res['status'] = 'undecided'; res['reason'] = 'timeout after %ds on %s' % (tmo, group[0] if len(group) == 1 else 'the automatic checks')
             res['time_s'] = round(time.time() - t0, 2)
             return res
         try:
@@ -234,7 +246,7 @@ def prove(built, fn, verbose=False, trace=False, keep=False):
         res['status'] = 'undecided'; res['reason'] = 'loop contracts were not applied (no loop_invariant_step obligations)'
         return res
     # vacuity: the normal-exit canary of the target must be reachable
-    if not res['canaries'].get(fn + ' ret', False) and not getattr(sp, 'noreturn', False):
+    if not res['canaries'].get(fn + ' ret', False) and not (case and res['canaries'].get(fn + ' exc', False)):
         res['status'] = 'undecided'; res['reason'] = 'vacuous: normal exit of %s unreachable under its requires/harness' % fn
         return res
     res['status'] = 'proved' if not res['failed'] else 'failed'
@@ -247,6 +259,31 @@ def prove(built, fn, verbose=False, trace=False, keep=False):
         res['trace'] = tr
     if not keep:
         shutil.rmtree(wd, ignore_errors=True)
+    return res
+
+
+def prove_cases(built, fn, verbose, trace, keep):
+    """a function whose proof is split by a partition of its entry states: one proof per case, merged"""
+    sp = built.model.specs[fn]
+    parts = list(CASEPOOL.map(lambda c: prove(built, fn, verbose, trace, keep, case=c[0]), sp.cases))
+    res = dict(parts[0]); res['cases'] = [c[0] for c in sp.cases]
+    res['obligations'] = sum(p['obligations'] for p in parts); res['discharged'] = sum(p['discharged'] for p in parts)
+    res['failed'] = []
+    for p, c in zip(parts, sp.cases):
+        for f in p['failed']:
+            f = dict(f); f['case'] = c[0]; res['failed'].append(f)
+    res['tags'] = {}
+    for p in parts:
+        for t, (a, b) in p['tags'].items():
+            d = res['tags'].setdefault(t, [0, 0]); d[0] += a; d[1] += b
+    res['time_s'] = round(max(p['time_s'] for p in parts), 2)
+    res['solver_s'] = round(sum(p.get('solver_s') or 0 for p in parts), 2)
+    und = [p for p in parts if p['status'] == 'undecided']
+    if und:
+        res['status'] = 'undecided'; res['reason'] = '; '.join('case %s: %s' % (c[0], p['reason']) for p, c in zip(parts, sp.cases) if p['status'] == 'undecided')
+    else:
+        res['status'] = 'failed' if res['failed'] else 'proved'; res['reason'] = None
+    # the normal exit need not be reachable in every case, but must be in at least one
     return res
 
 
